@@ -50,11 +50,14 @@ def rule_SW1(ctx, files=None):
             off = 1 if (nd.get('ckind') == 'operator' and ce.get('method')) else 0
             args = nd['args'][off:]
             pn = ce['pn']
+            cdef = ctx.prog.fns.get(ce.get('usr'))
+            if cdef is not None and len(cdef.params) == len(pn):
+                pn = [p_['name'] for p_ in cdef.params]       # the definition's names (a declaration may differ)
             names = []
             for a in args:
                 an = f.nodes[f.strip_casts(a)]
                 names.append(an.get('name') if an['k'] == 'DeclRefExpr' else (an.get('m') if an['k'] == 'MemberExpr' else None))
-            if sum(1 for x in names if x) < 2:
+            if sum(1 for x in names if x) < 1:
                 continue
             ncalls += 1
             for a_i in range(min(len(names), len(pn))):
@@ -70,6 +73,23 @@ def rule_SW1(ctx, files=None):
                         res.fail(f.q, '%s(%s,%s)' % (ce.get('name'), names[a_i], names[a_j]), f.loc(i),
                                  '%s is called with (%s, %s) at the positions of its parameters (%s, %s): the arguments are '
                                  'swapped' % (ce.get('q'), names[a_i], names[a_j], pn[a_i], pn[a_j]))
+            # a boolean flag passed at the position of a different flag although the callee has a flag of that very name
+            pt = ce.get('pk', [])
+            for a_i in range(min(len(names), len(pn))):
+                an = f.nodes[f.strip_casts(args[a_i])]
+                if not names[a_i] or names[a_i] == pn[a_i] or names[a_i] not in pn:
+                    continue
+                if an.get('t', '').replace('const ', '').strip() != 'bool':
+                    continue
+                a_j = pn.index(names[a_i])
+                other = names[a_j] if a_j < len(names) else None
+                if other == names[a_i]:
+                    continue
+                res.ob(False, {'fn': f.q, 'call': ce.get('q'), 'at': f.loc(i), 'flag': names[a_i], 'passed_as': pn[a_i]})
+                res.fail(f.q, '%s(%s as %s)' % (ce.get('name'), names[a_i], pn[a_i]), f.loc(i),
+                         'the flag %s is passed to %s at the position of its parameter %s, while the parameter called %s '
+                         'receives %s: boolean arguments in the wrong order'
+                         % (names[a_i], ce.get('q'), pn[a_i], names[a_i], other or 'another expression'))
             res.ob(True, None)
     res.analysed['calls_with_named_arguments'] = ncalls
     return res, ncalls
